@@ -28,10 +28,16 @@ def make_docs(rng, n):
             doc = setbuild.make_writer(fmt).write(setbuild.build(d))
         except Exception:
             continue
-        if fmt == "sami" and rng.random() < 0.5:
-            # language classes in an order that differs from alphabetical / hash order
-            doc = doc
+        if fmt == "microdvd" and rng.random() < 0.5:
+            doc = "{0}{0}%s\n" % rng.choice(["23.976", "29.97", "50"]) + doc       # a declared frame rate
         docs.append((fmt, doc))
+        if rng.random() < 0.2:
+            # a TTML document whose elements reference several styles at once
+            docs.append(("dfxp", '<tt xml:lang="en" xmlns="http://www.w3.org/ns/ttml" xmlns:tts="http://www.w3.org/ns/ttml#styling"><head><styling>'
+                                 '<style xml:id="base" tts:color="white"/><style xml:id="emph" tts:fontStyle="italic"/><style xml:id="strong" tts:fontWeight="bold"/>'
+                                 '<style xml:id="speaker" tts:color="yellow"/></styling></head><body><div>'
+                                 '<p begin="1s" end="2s" style="base emph strong speaker">one <span style="speaker base emph">two</span></p>'
+                                 '<p begin="3s" end="4s" style="strong base">three</p></div></body></tt>'))
     return docs
 
 
@@ -48,6 +54,7 @@ def explore(chk):
     H = 50 if chk.tier == "quick" else 1200
     histories = []
     jobs = []
+    o_kw = []
     for h in range(H):
         docs = make_docs(rng, rng.randint(1, 3))
         ops = []
@@ -61,10 +68,25 @@ def explore(chk):
                 ops.append(("write", rng.choice(setbuild.WRITERS)))
         if not any(o[0] == "read" for o in ops):
             ops.insert(0, ("read", 0, True))
+        if rng.random() < 0.35:
+            # two different documents of one format read one after the other with the same reader object
+            d1 = setbuild.rand_desc(rng, nlang=1, unbalanced=0.0, absolute=0.0, with_layout=0.0)
+            d2 = setbuild.rand_desc(rng, nlang=1, unbalanced=0.0, absolute=0.0, with_layout=0.0)
+            fmt = rng.choice(["microdvd", "microdvd", "scc", "srt", "webvtt", "sami", "dfxp"])
+            try:
+                a = setbuild.make_writer(fmt).write(setbuild.build(d1)); b_ = setbuild.make_writer(fmt).write(setbuild.build(d2))
+                if fmt == "microdvd":
+                    a = "{0}{0}%s\n" % rng.choice(["23.976", "29.97", "12.5"]) + a
+                docs += [(fmt, a), (fmt, b_)]
+                ops += [("read", len(docs) - 2, True), ("read", len(docs) - 1, True)]
+            except Exception:
+                pass
         histories.append((docs, ops))
         for o in ops:
             if o[0] == "read":
-                jobs.append({"op": "read", "kind": docs[o[1]][0], "doc": docs[o[1]][1]})
+                kw = {"offset": rng.choice([0, 0, 1, 2])} if docs[o[1]][0] == "scc" else {}
+                o_kw.append(kw)
+                jobs.append({"op": "read", "kind": docs[o[1]][0], "doc": docs[o[1]][1], "kwargs": kw})
     seeds = [0, 1, rng.randrange(2, 10 ** 6)]
     pr = [pristine(jobs, s) for s in seeds]
     ji = 0
@@ -82,7 +104,7 @@ def explore(chk):
                 else:
                     rd = setbuild.make_reader(fmt); reused = False
                 try:
-                    cs = rd.read(doc)
+                    cs = rd.read(doc, **o_kw[ji])
                     res = ("ok", repr(setbuild.snapshot(cs)))
                 except Exception as e:
                     cs = None; res = ("err", type(e).__name__)
